@@ -5,7 +5,7 @@ import sym
 
 CONFIGS_QUICK = ["F_all", "F_def"]  # every configuration whose cfg-gated code the property depends on
 CONFIGS_THOROUGH = ["F_all", "F_def"]
-TECHNIQUE = 'static analysis: effect pairing (scope push/pop) across the NsReader API on MIR paths, decision tables of the resolver, exact level steps, both arms of pop drop bindings, push looks at every attribute, level of the reserved bindings, compile-fail witnesses (no DerefMut)'
+TECHNIQUE = 'static analysis: effect pairing (scope push/pop) across the NsReader API on MIR paths, decision tables of the resolver, exact level steps, both arms of pop drop bindings, push looks at every attribute, level of the reserved bindings, compile-fail witnesses (no DerefMut), call-order rule (pop, read, process_event) for every caller of process_event'
 EXPLANATION = (
     "Scope pairing across the NsReader API: every NsReader method that lets the inner reader consume the End tag of an "
     "already-pushed element (read_to_end, read_to_end_into, read_text, read_to_end_into_async) must pop the namespace "
@@ -86,6 +86,8 @@ def r2_process_event(ctx):
             ev = decision_on(p, lambda t: t[0] == "discr" and t[1][0] == "pl" and root_of(t[1])[0] == "arg" and root_of(t[1])[2] == "event")
             r = ret_of(p)
             if is_error_exit(p):
+                if okv == 1 and not any(name_is(c[2], "NamespaceResolver::push", "NamespaceResolver::pop") for c in calls(p)) and not any(e[0] == "store" for e in p):
+                    rows["Err"] = (0, False, 0)   # `event?`: the reader's error passes through untouched
                 continue  # push failed: error returned, nothing else to do
             if okv == 0 and isinstance(ev, int):
                 var = event_variant(F, ev)
@@ -103,6 +105,10 @@ def r2_process_event(ctx):
             if var in ("Start", "Empty", "End"):
                 rv = describe_ret(r, 1)[0]
                 same_param = strip_wrappers(r)[0] == "arg" and strip_wrappers(r)[2] == "event"
+                if r[0] == "agg" and r[2] == "Ok" and r[3]:
+                    pay = strip_wrappers(r[3][0])
+                    if pay[0] == "pl" and root_of(pay)[0] == "arg" and root_of(pay)[2] == "event" and not any(isinstance(x, tuple) and x[0] == "f" and x[2] != "0" for x in pay[2]):
+                        same_param = True   # Ok(<the Ok payload of the parameter>)
                 ctx.ob("R2", "process_event[%s]:passes-event" % var, rv[:2] == ("Ok", var) or same_param, "the event is returned unchanged (%s)" % (rv if not same_param else "the parameter itself",), config=cfg)
         ctx.floor("R2", "rows of process_event", len(rows), 5, config=cfg)
         # the deferred pop runs before the inner read
